@@ -53,6 +53,12 @@ Section Step.
     end.
 End Step.
 
+(* operations the front-end has: the storage front-ends only Put / Has / Get / Roots / Finalize *)
+Definition op_okb (kn : N) (op : fop) : bool :=
+  (kn =? 0) || match op with FPut _ _ | FHas _ | FGet _ | FRoots | FFinalize => true | _ => false end.
+Definition is_finalize (op : fop) : bool :=
+  match op with FFinalize | FFinalizeRO => true | _ => false end.
+
 Definition kind_of (kn : N) : skind :=
   if kn =? 0 then KBlockstore else if kn =? 3 then KStorage false else KStorage true.
 
@@ -248,6 +254,10 @@ Definition spec_get_ok (o : wopts) (st : list blk) (c d : bytes) : bool :=
                       | None => false
                       end) st
   end.
+
+(* the CARv1 payload holding [st] *)
+Definition fpayload (nilroots : bool) (roots : list bytes) (st : list blk) : bytes :=
+  ld (enc_header (roots_opt nilroots roots) 1) ++ concat (map (fun b => enc_section (fst b) (snd b)) st).
 
 (* ---- side conditions of the theorems (sizes Go cannot exceed anyway) -------------------------------- *)
 Definition op_blocks (op : fop) : list blk :=
